@@ -26,6 +26,7 @@ type Job struct {
 	MaxPaths int            `json:"maxpaths,omitempty"`
 	Open     []string       `json:"open,omitempty"`
 	Timeout  int            `json:"timeout_ms,omitempty"`
+	Prop     string         `json:"prop,omitempty"` // property being decided: assertions "Cnn.…" of other properties are not checked
 }
 
 type KnownFinding struct {
@@ -88,6 +89,7 @@ func workerMain() int {
 		for _, o := range j.Open {
 			open[o] = true
 		}
+		curProp = j.Prop
 		res := runHarness(w, solver, j.Pkg, j.Harness, j.Params, open, j.MaxPaths)
 		if solver.Stats.Restarts > 50 {
 			solver.Close()
@@ -485,9 +487,11 @@ func checkMain(args []string) int {
 		}
 		meta = mr[0].Out
 	}
+	curProp = prop
 	jobs := def.Jobs(tier, meta)
 	for i := range jobs {
 		jobs[i].Open = open
+		jobs[i].Prop = prop
 		if jobs[i].Timeout == 0 {
 			if tier == "thorough" {
 				jobs[i].Timeout = 300000
@@ -681,7 +685,7 @@ func checkMain(args []string) int {
 			case "fail":
 				bad := false
 				for _, id := range o.FailIDs {
-					if !c.Allow[id] {
+					if !c.Allow[id] && !foreignAssertion(id) {
 						bad = true
 					}
 				}
